@@ -193,7 +193,7 @@ def gen_newmark(rng, forced=None):
                 T[p] = 1.0
             terms.append({"kind": kind, "p": p, "q": q, "c": c, "g": g, "T": T.tolist()})
     spec.update(F=F.tolist(), d0=None if d0 is None else d0.tolist(), v0=None if v0 is None else v0.tolist(),
-                rf=rf, terms=terms, nt=nt, n=n)
+                rf=rf, terms=terms, nt=nt, n=n, layout=str(rng.choice(["C", "F"])))
     return spec
 
 
@@ -219,6 +219,11 @@ def gen_cdf(rng, forced=None):
     bscale = np.sqrt(np.outer(np.maximum(b, 1e-3 * b.max() + 1e-9), np.maximum(b, 1e-3 * b.max() + 1e-9)))
     R = rng.standard_normal((n, n)) * (rng.random((n, n)) < 0.7)
     off = 0.3 * bscale * (R + R.T) / 2
+    nonsym = bool(rng.random() < 0.4)
+    if nonsym:
+        # off-diagonal damping need not be symmetric (gyroscopic terms, general modal damping)
+        off = 0.3 * bscale * R
+        tags.append("nonsymmetric-damping")
     off[np.arange(n), np.arange(n)] = 0.0
     if not off.any():
         off[0, 1] = off[1, 0] = 0.1 * bscale[0, 1]
@@ -233,15 +238,20 @@ def gen_cdf(rng, forced=None):
     return {"solver": "cdf", "h": h, "n": n, "nt": nt, "m": None if mnone else m.tolist(), "b": B.tolist(),
             "k": k.tolist(), "F": F.tolist(), "d0": None if d0 is None else d0.tolist(),
             "v0": None if v0 is None else v0.tolist(), "rf": rf, "order": int(rng.integers(0, 2)),
-            "tags": tags, "cls": str(rng.choice(["SolveCDF", "SolveUnc"]))}
+            "tags": tags, "cls": str(rng.choice(["SolveCDF", "SolveUnc"])), "layout": str(rng.choice(["C", "F"]))}
 
 
 # ---------------------------------------------------------------------------------------
 # running the implementation
 
 
-def _arr(x):
-    return None if x is None else np.array(x, float)
+def _arr(x, layout="C"):
+    if x is None:
+        return None
+    a = np.array(x, float)
+    # Fortran-ordered matrices (what op4 / MATLAB readers and LAPACK-based routines hand over) are legitimate input;
+    # a routine that lets LAPACK work in place (overwrite_a) behaves differently on them
+    return np.asfortranarray(a) if layout == "F" and a.ndim == 2 else a
 
 
 def _zfun(t):
@@ -270,7 +280,8 @@ def run_newmark(spec):
     from pyyeti import ode
 
     try:
-        ts = ode.SolveNewmark(_arr(spec["m"]), _arr(spec["b"]), _arr(spec["k"]), spec["h"], rf=spec.get("rf"))
+        lay = spec.get("layout", "C")
+        ts = ode.SolveNewmark(_arr(spec["m"], lay), _arr(spec["b"], lay), _arr(spec["k"], lay), spec["h"], rf=spec.get("rf"))
         if spec.get("terms"):
             ts.def_nonlin({"t%d" % i: (_zfun(t), np.array(t["T"], float).reshape(-1, 1))
                            for i, t in enumerate(spec["terms"])})
@@ -288,7 +299,7 @@ def run_newmark(spec):
 def run_cdf(spec, cls=None, b_override=None):
     from pyyeti import ode
 
-    b = _arr(spec["b"]) if b_override is None else b_override
+    b = _arr(spec["b"], spec.get("layout", "C")) if b_override is None else b_override
     cls = cls or spec.get("cls", "SolveCDF")
     if cls == "SolveCDF":
         ts = ode.SolveCDF(_arr(spec["m"]), b, _arr(spec["k"]), spec["h"], rf=spec.get("rf"), order=spec["order"])
